@@ -15,8 +15,9 @@ def main():
         rc,out=sh(f"git -C /repo worktree add --detach {WT} HEAD"); print(out)
     results=[]
     for d in sys.argv[1:]:
-        base=os.path.basename(d.rstrip('/')); rnd='r2-' if base.startswith('seed2-') else ('r3-' if base.startswith('seed3-') else ('r4-' if base.startswith('seed4-') else '')); pid=base.replace('seed4-','').replace('seed3-','').replace('seed2-','').replace('seed-','')
+        base=os.path.basename(d.rstrip('/')); rnd='r2-' if base.startswith('seed2-') else ('r3-' if base.startswith('seed3-') else ('r4-' if base.startswith('seed4-') else ('r5-' if base.startswith('seed5-') else ''))); pid=base.replace('seed5-','').replace('seed4-','').replace('seed3-','').replace('seed2-','').replace('seed-','')
         for n in (1,2,3):
+            if os.path.isdir(f"/verif/seeded/{pid}-{rnd}{n}"): continue
             diff=f"{d}/_out/change{n}.diff"; demo=f"{d}/_out/demo{n}.rs"; md=f"{d}/_out/change{n}.md"
             if not (os.path.exists(diff) and os.path.exists(demo)):
                 results.append((pid,n,"missing files")); continue
